@@ -132,6 +132,9 @@ def barrierRec (E : Type) (xb : Nat) : Rec E := ⟨[.num 1, .num 18, .num xb], .
 def reinject (outTable : E) (xp : Nat) (d : PacketInData) : PacketOut E :=
   ⟨1, 13, xp, NO_BUFFER, d.in_port, [outTable], d.data⟩
 
+/-- `ofp_action_output(port=OFPP_TABLE)` as `pack()` leaves it (`max_len` normalised to 0), as a list element -/
+def outTable (n : Nat) : Elem (n + 1) := ("ofp_action_output", ⟨[.num 0, .num 0xfff9, .num 0], .none⟩)
+
 /-- the messages `ofp_flow_mod.pack()` returns, in order (`outTable` = the element `ofp_action_output(port=OFPP_TABLE)`) -/
 def fmPack (C : Codec E) (outTable : E) (f : FlowMod E) (d : Option PacketInData) (xb xp : Nat) : Option (List Bytes) :=
   match encFlowMod C f (wireBuffer f.buffer_id d) with
